@@ -1,6 +1,252 @@
-(* C12 placeholder while the proofs are being written *)
-From Coq Require Import ZArith.
-From MV Require Import Geo.Hull2Defs.
-Theorem c12_stub : (1 + 1 = 2)%Z.
-Proof. exact eq_refl. Qed.
-Print Assumptions c12_stub.
+(* C12 — Offset, Hull, Decompose and Simplify of CrossSections mean what they say.
+   Only statements closed by `exact`, each followed by Print Assumptions.
+   Models: Geo/Simplify2Defs.v, Geo/Hull2Defs.v, Geo/Decomp2Defs.v (ports of
+   SimplifyRing, HullImpl, DecomposeByContainment), Geo/Offset2Defs.v (the
+   expressions of OffsetContour over R), Geo/Offset2CheckDefs.v (exact checker
+   for Offset outputs).  The metric statement about the whole offset region is
+   NOT proved; it is decided per sample point by offset_check, whose meaning is
+   theorem offset_check_meaning below. *)
+From Coq Require Import ZArith QArith Reals List Bool Permutation.
+From MV Require Import Geo.Wind2Defs Geo.Simplify2Defs Geo.Simplify2 Geo.Hull2Defs Geo.Hull2
+  Geo.Decomp2Defs Geo.Decomp2 Geo.Offset2Defs Geo.Offset2 Geo.Offset2CheckDefs Geo.Offset2Check.
+Import ListNotations.
+
+(* ================= Simplify ================= *)
+Local Open Scope Z_scope.
+
+(* For every deviation function (into Q: every finite double embeds), every
+   tolerance and every ring size the ported lazy-heap loop terminates within
+   its fuel of 3n+1 pops. *)
+Theorem simplify_ring_terminates :
+  forall (dev : Z -> Z -> Z -> Q) (tol2 : Q) (n : Z), 0 <= n ->
+  exists out, simplify_idx dev tol2 n = Some out.
+Proof. exact simplify_idx_terminates. Qed.
+Print Assumptions simplify_ring_terminates.
+
+(* The output is an in-order subsequence of the input ring: SimplifyRing only deletes vertices. *)
+Theorem simplify_ring_subsequence :
+  forall (ring : list pt) (tol2 : Q) (out : list pt),
+  simplify_ring ring tol2 = Some out -> subseq out ring.
+Proof. exact simplify_ring_subseq. Qed.
+Print Assumptions simplify_ring_subsequence.
+
+(* Exit condition (full heap-invariant proof): for rings of more than 3
+   vertices at least 3 survive, and on exit either exactly 3 remain or every
+   surviving vertex i deviates by at least the tolerance from the line through
+   its cyclic neighbours p, nx *in the output* (cyc_next: nearest surviving
+   index before/after i, wrapping round). *)
+Theorem simplify_ring_exit :
+  forall (dev : Z -> Z -> Z -> Q) (tol2 : Q) (n : Z) (out : list Z),
+  3 < n -> simplify_idx dev tol2 n = Some out ->
+  (3 <= length out)%nat /\
+  (length out = 3%nat \/
+   forall i, In i out -> exists p nx, cyc_next out n p i /\ cyc_next out n i nx /\ (tol2 <= dev p i nx)%Q).
+Proof. exact simplify_idx_exit. Qed.
+Print Assumptions simplify_ring_exit.
+
+(* tie-breaking as in the code's comparator `worse`: the entry the loop pops is
+   least in the order (d2, then idx) among all heap entries, so exactly tied
+   deviations remove the lowest index first *)
+Theorem simplify_pop_is_least :
+  forall (h : list entry) (m : entry) (r : list entry),
+  extract_min h = Some (m, r) ->
+  Permutation h (m :: r) /\
+  forall x, In x r -> (e_d m < e_d x)%Q \/ ((e_d m == e_d x)%Q /\ e_idx m <= e_idx x).
+Proof.
+  intros h m r H. exact (conj (proj1 (extract_min_spec h m r H)) (extract_min_least h m r H)).
+Qed.
+Print Assumptions simplify_pop_is_least.
+
+(* the hypotheses are satisfiable and the result non-trivial: a heptagon with a
+   collinear and a nearly collinear vertex, tolerance^2 = 1/4 *)
+Example simplify_example :
+  simplify_ring [(0,0);(2,0);(4,0);(4,1);(4,4);(2,5);(0,4)] (1#4) = Some [(0,0);(4,0);(4,4);(2,5);(0,4)].
+Proof. exact simplify_example_ok. Qed.
+
+(* what `tol2 <= deviation` means for the code's deviation2 on integer points:
+   tol^2 * |N-P|^2 <= cross(V-P, N-P)^2 *)
+Theorem simplify_deviation_meaning :
+  forall (ring : list pt) (tn : Z) (td : BinNums.positive) (p i nx : Z),
+  0 < dot (sub (nthp ring nx) (nthp ring p)) (sub (nthp ring nx) (nthp ring p)) ->
+  (((tn # td) <= dev_pts ring p i nx)%Q <->
+   tn * dot (sub (nthp ring nx) (nthp ring p)) (sub (nthp ring nx) (nthp ring p))
+   <= crs (sub (nthp ring i) (nthp ring p)) (sub (nthp ring nx) (nthp ring p)) *
+      crs (sub (nthp ring i) (nthp ring p)) (sub (nthp ring nx) (nthp ring p)) * Zpos td).
+Proof. exact dev_pts_ge. Qed.
+Print Assumptions simplify_deviation_meaning.
+
+(* the boolean subsequence test run on library outputs is sound *)
+Theorem simplify_check_subsequence_sound :
+  forall l1 l2 : list pt, subseq_b l1 l2 = true -> subseq l1 l2.
+Proof. exact subseq_b_sound. Qed.
+Print Assumptions simplify_check_subsequence_sound.
+
+(* ================= Hull ================= *)
+
+(* the ported monotone chain only returns input points *)
+Theorem hull2_vertices_subset : forall (pts : list pt) (x : pt), In x (hull2 pts) -> In x pts.
+Proof. exact hull2_subset. Qed.
+Print Assumptions hull2_vertices_subset.
+
+(* soundness of the exact certificate: an accepted H with >= 3 vertices is a
+   list of distinct input points, every vertex strictly left of every edge it
+   is not on (strictly convex, counter-clockwise), every input point in the
+   closed left half-plane of every edge; an accepted H with < 3 vertices means
+   the input has < 3 points or lies on one line. *)
+Theorem hull2_check_soundness :
+  forall pts H : list pt,
+  hull2_check pts H = true ->
+  ((3 <= length H)%nat /\ hull_spec pts H) \/
+  ((length H < 3)%nat /\ ((length pts < 3)%nat \/ collinear_spec pts)).
+Proof. exact hull2_check_sound. Qed.
+Print Assumptions hull2_check_soundness.
+
+(* PARTIAL (bounded): the ported HullImpl passes the certificate on every point
+   list of length <= 5 over the 3x3 grid and of length 3..4 over the 4x4 grid
+   (all orders, duplicates, collinear triples).  Missing: the unbounded proof of
+   Andrew's monotone chain; at run time the certificate is evaluated on every
+   output of the library instead. *)
+Theorem hull2_convex_contains_partial :
+  forallb (fun k => forallb hull_case_ok (lists_over (grid 3 3) k)) [0; 1; 2; 3; 4; 5]%nat = true /\
+  forallb (fun k => forallb hull_case_ok (lists_over (grid 4 4) k)) [3; 4]%nat = true.
+Proof. exact (conj hull2_small_3x3 hull2_small_4x4). Qed.
+Print Assumptions hull2_convex_contains_partial.
+
+(* ================= Decompose ================= *)
+
+(* the imperative port (compOf indices, push_back) equals the specification:
+   one component per positive ring, in order, holding the holes whose first
+   non-negative-area ring on the parent chain is that ring *)
+Theorem decompose_partition :
+  forall (n : Z) (inside : Z -> Z -> bool) (area : Z -> Z), 0 <= n ->
+  decompose n inside area = decompose_spec n inside area /\
+  map (hd 0) (decompose n inside area) = positives n area /\
+  NoDup (concat (decompose n inside area)) /\
+  (forall i, In i (concat (decompose n inside area)) <->
+     0 <= i < n /\ (positive area i = true \/
+                    (positive area i = false /\ positive area (ancestor n inside area i) = true /\ 0 <= ancestor n inside area i))).
+Proof.
+  intros n inside area Hn.
+  exact (conj (decompose_eq_spec n inside area Hn)
+        (conj (decompose_heads n inside area Hn)
+        (conj (decompose_nodup n inside area Hn) (decompose_member n inside area Hn)))).
+Qed.
+Print Assumptions decompose_partition.
+
+(* parent = the smallest-|area| ring containing i (the nearest enclosing ring), or -1 *)
+Theorem decompose_parent_nearest :
+  forall (n : Z) (inside : Z -> Z -> bool) (area : Z -> Z) (i : Z),
+  (parent_of n inside area i = -1 /\ forall j, 0 <= j < n -> j <> i -> inside i j = false) \/
+  (0 <= parent_of n inside area i < n /\ parent_of n inside area i <> i /\
+   inside i (parent_of n inside area i) = true /\
+   forall j, 0 <= j < n -> j <> i -> inside i j = true ->
+     Z.abs (area (parent_of n inside area i)) <= Z.abs (area j)).
+Proof. exact parent_of_spec. Qed.
+Print Assumptions decompose_parent_nearest.
+
+(* area additivity: when no hole is orphaned (true of regularized input) the
+   components hold every kept ring exactly once, so any per-ring quantity
+   (twice the signed area) adds up to the whole *)
+Theorem decompose_area_additivity :
+  forall (n : Z) (inside : Z -> Z -> bool) (area : Z -> Z), 0 <= n ->
+  forall a2 : Z -> Z,
+  (forall i, 0 <= i < n -> positive area i = false ->
+     positive area (ancestor n inside area i) = true /\ 0 <= ancestor n inside area i) ->
+  zsum (map (fun c => zsum (map a2 c)) (decompose n inside area)) = zsum (map a2 (ziota n)).
+Proof. exact decompose_area_additive. Qed.
+Print Assumptions decompose_area_additivity.
+
+Example decompose_example :
+  decompose_rings [ [(0,0);(10,0);(10,10);(0,10)]; [(1,9);(9,9);(9,1);(1,1)]; [(2,2);(8,2);(8,8);(2,8)];
+                    [(3,4);(4,4);(4,3);(3,3)]; [(20,0);(22,0);(22,2);(20,2)] ] = [[0; 1]; [2; 3]; [4]].
+Proof. exact decompose_example_ok. Qed.
+
+(* ================= Offset: exact checker ================= *)
+
+(* the integer distance tests are exact: sound and complete against "some /
+   every point a + (tn/td)(b-a), 0 <= tn <= td, of the closed segment" *)
+Theorem offset_distance_tests_exact :
+  forall (T : Z) (p : pt) (e : seg),
+  (seg_within T p e = true <-> within_spec T p e) /\ (seg_beyond T p e = true <-> beyond_spec T p e).
+Proof. intros T p e. exact (conj (seg_within_iff T p e) (seg_beyond_iff T p e)). Qed.
+Print Assumptions offset_distance_tests_exact.
+
+(* an accepted offset_check means, at every sample point: the output's exact
+   winding number is 0 or 1; it is 1 wherever the point must be inside (inside
+   the input or nearer than r_in to its boundary / in the swept rectangle of an
+   edge, for growth; inside and farther than r_out from the boundary, for
+   insets) and 0 wherever it must be outside (dually). *)
+Theorem offset_check_meaning :
+  forall (P : oparams) (inp out : list contour) (samples : list pt),
+  offset_check P inp out samples = true ->
+  forall s, In s samples ->
+    (wind2 out s = 0 \/ wind2 out s = 1) /\
+    (must_in_spec P (all_edges inp) s -> wind2 out s = 1) /\
+    (must_out_spec P (all_edges inp) s -> wind2 out s = 0).
+Proof. exact offset_check_sound. Qed.
+Print Assumptions offset_check_meaning.
+
+Theorem offset_mono_check_meaning :
+  forall (Rs Ts : Z) (out1 out2 : list contour) (samples : list pt),
+  mono_check Rs Ts out1 out2 samples = true ->
+  forall s, In s samples ->
+    wind2 out1 s <> 0 -> (forall e, In e (all_edges out1) -> beyond_spec Ts s e) -> wind2 out2 s <> 0.
+Proof. exact mono_check_sound. Qed.
+Print Assumptions offset_mono_check_meaning.
+
+(* ================= Offset: decision logic over R ================= *)
+Local Open Scope R_scope.
+
+(* the code's test on the dot product of adjacent unit normals against
+   2/limit^2 - 1 is "miter length > limit * |delta|" *)
+Theorem miter_threshold :
+  forall L dotN delta : R, 0 < L -> delta <> 0 -> -1 < dotN ->
+  (dotN < miter_cos_thresh L <-> Rabs delta * sqrt (2 / (1 + dotN)) > L * Rabs delta).
+Proof. exact Offset2.miter_threshold. Qed.
+Print Assumptions miter_threshold.
+
+(* MiterPoint lies on both offset lines, at squared distance delta^2 * 2/(1+dotN) from V,
+   hence within limit*|delta| whenever the join is not squared *)
+Theorem miter_point_correct :
+  forall (V nP nN : vec) (delta L : R),
+  0 < L -> vlen2 nP = 1 -> vlen2 nN = 1 -> 0 < 1 + vdot nP nN ->
+  vdot (vsub (miter_point V nP nN delta) V) nP = delta /\
+  vdot (vsub (miter_point V nP nN delta) V) nN = delta /\
+  vlen2 (vsub (miter_point V nP nN delta) V) = delta * delta * (2 / (1 + vdot nP nN)) /\
+  (~ (vdot nP nN < miter_cos_thresh L) ->
+   vlen2 (vsub (miter_point V nP nN delta) V) <= (L * delta) * (L * delta)).
+Proof.
+  intros V nP nN delta L HL HP HN Hd.
+  exact (conj (proj1 (miter_point_on_both_offsets V nP nN delta HP HN Hd))
+        (conj (proj2 (miter_point_on_both_offsets V nP nN delta HP HN Hd))
+        (conj (miter_point_length V nP nN delta HP HN Hd)
+              (miter_within_limit V nP nN delta L HL HP HN Hd)))).
+Qed.
+Print Assumptions miter_point_correct.
+
+(* the convex/concave decision cross(ePrev,eNext)*sign(delta) > 0 says: the next
+   offset edge starts ahead of where the previous one ends (a gap to be joined) *)
+Theorem convex_iff_cross_sign :
+  forall (V eP eN : vec) (delta : R),
+  0 < vlen2 eP -> 0 < vlen2 eN -> delta <> 0 ->
+  (convex_test eP eN delta <->
+   vdot (vsub (offset_pt V (outward_normal eN) delta) (offset_pt V (outward_normal eP) delta)) eP > 0).
+Proof. exact Offset2.convex_iff_cross_sign. Qed.
+Print Assumptions convex_iff_cross_sign.
+
+(* every point of a chord between two round-join vertices at most one full
+   step 2 pi/seg apart is within |delta| (1 - cos(pi/seg)) of the circle *)
+Theorem round_join_chord_error :
+  forall (V nP : vec) (delta a theta t seg : R),
+  vlen2 nP = 1 -> 3 <= seg -> 0 <= theta <= 2 * PI / seg -> 0 <= t <= 1 ->
+  Rabs delta * cos (PI / seg)
+    <= vlen (vsub (lerp t (round_pt V nP delta a) (round_pt V nP delta (a + theta))) V)
+    <= Rabs delta.
+Proof. exact Offset2.round_join_chord_error. Qed.
+Print Assumptions round_join_chord_error.
+
+Theorem round_join_substep :
+  forall (sweep full : R) (n : nat),
+  0 < full -> 0 <= sweep -> (1 <= n)%nat -> sweep / full <= INR n -> sweep / INR n <= full.
+Proof. exact substep_le_fullstep. Qed.
+Print Assumptions round_join_substep.
